@@ -112,8 +112,9 @@ class Body:
         self.facts = facts
         self.raw = raw
         if not os.environ.get("VERIF_NONORM"):
-            from normalize import thread_flags
+            from normalize import thread_flags, replace_none_is_take
             thread_flags(raw, facts.types)
+            replace_none_is_take(raw, facts.types)
         self.path = raw["path"]
         self.dpath = raw["dpath"]
         self.name = raw.get("name", "")
@@ -683,6 +684,10 @@ class Facts:
                 d = json.load(f)
         self.raw = d
         self.path = path
+        if not os.environ.get("VERIF_NONORM"):
+            from normalize import desugar_option_like, std_equivalents
+            self.desugared = desugar_option_like(d)
+            self.std_equivalents = std_equivalents(d)
         self.crate = d["crate"]
         self.cfg = d["cfg"]
         self.debug_assertions = d["debug_assertions"]
